@@ -19,7 +19,11 @@ namespace C38
 open FS
 
 inductive EType where
-  | dir | reg | symlink | other
+  | dir | reg | symlink
+  /-- any other type flag (hard link, character / block device, fifo, contiguous file, unknown) -/
+  | other
+  /-- not a header: `tarReader.Next()` returned an error at this point (malformed header) -/
+  | bad
   deriving DecidableEq, Repr, Inhabited
 
 structure Entry where
@@ -27,14 +31,14 @@ structure Entry where
   typ : EType
   linkname : List String := []
   mode : Nat := 0
-  mtime : Nat := 0
+  mtime : Int := 0
   data : List UInt8 := []
   deriving Repr, Inhabited
 
 structure Deferred where
   path : Path
   mode : Nat
-  mtime : Nat
+  mtime : Int
   deriving Repr, Inhabited
 
 abbrev Res := World × Option Errno
@@ -50,7 +54,7 @@ def validTarPath (name : List String) : Bool := name.all simple
 /-- `files.UpdateMetaUnix(path, uint32(mode), mtime)`: `utimensat(AT_SYMLINK_NOFOLLOW)` first, then
 `os.Chmod` (FOLLOWS links) unless the converted mode is 0.  `UnixPermsToModePerms` followed by
 `syscallMode` keeps exactly the 12 permission bits. -/
-def updateMeta (w : World) (p : Path) (mode mtime : Nat) : Res :=
+def updateMeta (w : World) (p : Path) (mode : Nat) (mtime : Int) : Res :=
   let r := utimensNoFollow w p mtime
   match r.2 with
   | some e => (r.1, some e)
@@ -166,7 +170,8 @@ structure St where
 
 /-- one non-root entry (body of the `for` loop) -/
 def stepEntry (fixed : Bool) (tmp : String) (target : Path) (rootName : String) (s : St) (e : Entry) : St :=
-  if !validTarPath e.name then { s with err := true }
+  if e.typ == EType.bad then { s with err := true }
+  else if !validTarPath e.name then { s with err := true }
   else if !(e.name.head? == some rootName && e.name.length ≥ 2) then { s with err := true }   -- getRelativePath
   else
     let rel := e.name.tail
@@ -190,6 +195,7 @@ def stepEntry (fixed : Bool) (tmp : String) (target : Path) (rootName : String) 
           let r := extractSymlink s.w p e
           { s with w := r.1, err := r.2.isSome }
         | .other => { s with err := true }
+        | .bad => { s with err := true }
 
 def loopEntries (fixed : Bool) (tmp : String) (target : Path) (rootName : String) : St → List Entry → St
   | s, [] => s
@@ -202,7 +208,8 @@ def extract (fixed : Bool) (tmp : String) (w : World) (target : Path) (entries :
   match entries with
   | [] => (w, true)
   | h :: rest =>
-    if h.name.length > 1 then (w, true)
+    if h.typ == EType.bad then (w, true)
+    else if h.name.length > 1 then (w, true)
     else
       let rootName := h.name.headD ""
       if rootName == "" || rootName == "." || rootName == ".." then (w, true)
@@ -218,6 +225,7 @@ def extract (fixed : Bool) (tmp : String) (w : World) (target : Path) (entries :
             if r2.2.isSome then fin { w := r2.1, ds := ds, err := true }
             else fin (loopEntries fixed tmp target rootName { w := r2.1, ds := ds } rest)
         | .other => (w, true)
+        | .bad => (w, true)
         | _ =>
           let probe : Except Errno Bool :=
             match lstat w target with
